@@ -9,6 +9,7 @@ import (
 	"io/fs"
 	"os"
 	"path/filepath"
+	"syscall"
 )
 
 const (
@@ -181,17 +182,17 @@ func (f *fileWrapper) Move(newPath string) error {
 	}
 
 	err = f.fs.Rename(f.incompletePath, filepath.Join(newPath, f.incompleteDataName()))
-	if err != nil && (!errors.Is(err, os.ErrNotExist) || noData) {
+	if err != nil && (!sideFileAbsent(err) || noData) {
 		return err
 	}
 
 	err = f.fs.Rename(f.rsrcPath, filepath.Join(newPath, f.rsrcForkName()))
-	if err != nil && !errors.Is(err, os.ErrNotExist) {
+	if err != nil && !sideFileAbsent(err) {
 		return err
 	}
 
 	err = f.fs.Rename(f.infoPath, filepath.Join(newPath, f.infoForkName()))
-	if err != nil && !errors.Is(err, os.ErrNotExist) {
+	if err != nil && !sideFileAbsent(err) {
 		return err
 	}
 
@@ -199,6 +200,12 @@ func (f *fileWrapper) Move(newPath string) error {
 }
 
 // Delete a file and its associated metadata files if they exist
+// sideFileAbsent reports whether err from a step on one of a file's side files (.incomplete, .rsrc_, .info_) means
+// that there is no such side file: it does not exist, or its name (longer than the file's own) is too long to exist.
+func sideFileAbsent(err error) bool {
+	return errors.Is(err, os.ErrNotExist) || errors.Is(err, syscall.ENAMETOOLONG)
+}
+
 func (f *fileWrapper) Delete() error {
 	err := f.fs.RemoveAll(f.dataPath)
 	if err != nil {
@@ -206,17 +213,17 @@ func (f *fileWrapper) Delete() error {
 	}
 
 	err = f.fs.Remove(f.incompletePath)
-	if err != nil && !errors.Is(err, os.ErrNotExist) {
+	if err != nil && !sideFileAbsent(err) {
 		return err
 	}
 
 	err = f.fs.Remove(f.rsrcPath)
-	if err != nil && !errors.Is(err, os.ErrNotExist) {
+	if err != nil && !sideFileAbsent(err) {
 		return err
 	}
 
 	err = f.fs.Remove(f.infoPath)
-	if err != nil && !errors.Is(err, os.ErrNotExist) {
+	if err != nil && !sideFileAbsent(err) {
 		return err
 	}
 
